@@ -38,7 +38,8 @@ def parseVals (s : String) : Vals × List String :=
       | _ => acc
     | [k, "T", t] =>
       match t.splitOn "-" with
-      | [h, m] => (acc.1.setT k ⟨parseNat h, parseNat m⟩, k :: acc.2)
+      | [h, m] => (acc.1.setT k ⟨parseNat h, parseNat m, false⟩, k :: acc.2)
+      | [h, m, z] => (acc.1.setT k ⟨parseNat h, parseNat m, z == "1"⟩, k :: acc.2)
       | _ => acc
     | _ => acc) ({}, [])
 
@@ -57,7 +58,7 @@ def dumpVals (ks : List (String × Char)) (v : Vals) : String :=
     match c with
     | 'I' => s!"{k}:I:{v.i k}"
     | 'D' => let d := v.d k; s!"{k}:D:{d.y}-{d.m}-{d.d}"
-    | 'T' => let t := v.t k; s!"{k}:T:{t.h}-{t.m}"
+    | 'T' => let t := v.t k; s!"{k}:T:{t.h}-{t.m}-{if t.z then 1 else 0}"
     | _ => s!"{k}:S:{toHex (v.s k)}"))
 
 end Icl.Wire
